@@ -81,6 +81,11 @@ CLAIMED = {
         technique="TLA+ outbound guard (ServerConn!Guard, invariant NoOversize) checked by TLC; the (path, limit, size) product executed against the real server, proxy and client with a raw peer measuring every binary message, judged by TLC (Trace_Guard)",
         text="TLC checks that with a limit configured no oversize message reaches the wire and the one-response discipline survives the replacement. For limits 1 KiB and 64 KiB (plus 4 KiB and 16 MiB in the thorough tier) and none, and frame sizes limit-2..limit+2, limit/2 and 4/3 limit, each of seven outbound paths (inline response, off-reader response, proxy-forwarded response, handler-pushed notify, registry broadcast, client request, client notify) is exercised; a raw peer records the byte length of every binary message, error hooks and call results are recorded, and the trace specification requires unchanged delivery at or below the limit, an InternalError replacement with the same id / a reported drop / a local MessageTooLarge above it, and a usable connection afterwards.",
         note="Trusts TLC and the raw peer's length measurement."),
+    "C15": dict(
+        category="model_checking", design_ref="DESIGN.md §5 C15",
+        technique="TLA+ spec ConnLifecycle (guard, connect hooks that may panic, exit causes, guard Drop) checked by TLC with a must-violate config for the guard order; exit cause x phase x entry point scenarios produced against the real WebSocket server by a raw peer and judged by TLC (Trace_Lifecycle)",
+        text="TLC checks that the disconnect hooks run exactly once iff the handshake succeeded, that the registry entry is scoped to the connection, that connect-callback notifications precede responses and that a parked handler eventually observes cancellation; arming the guard after the connect hooks violates DisconnectOnce. Against the real server, nine exit causes are crossed with five phases and up to six serving entry points (accept loop, shutdown loop, graceful-drain loop, serve_connection, serve_connection_with_cancel, adopt_upgraded over a duplex), with 1..8 (32) concurrent connections; connect/disconnect callback counts, registry and alias presence during and after, the order of frames on the wire and a parked handler's view of cancellation are validated per scenario.",
+        note="Black box: public callbacks, registry and raw frames only. Timing within a phase is whatever the scheduler produced."),
 }
 
 NOT_YET = {}
